@@ -69,6 +69,7 @@ type World struct {
 	initSub  string
 	initGr   string
 	initRes  []string
+	initDet  []Detail
 	// captured
 	notifs    []Notif
 	lastPage  string
@@ -176,6 +177,9 @@ func (cs ClientSpec) build() *goidc.Client {
 		c.JARMSigAlg = goidc.ES256
 	}
 	c.CIBAUserCodeIsEnabled = cs.UserCode
+	if cs.DetailTypesSet {
+		c.AuthDetailTypes = append([]string{}, cs.DetailTypes...)
+	}
 	if cs.Authn != "" {
 		c.TokenAuthnMethod = goidc.ClientAuthnType(cs.Authn)
 		c.HashedSecret = ""
@@ -323,6 +327,7 @@ func (w *World) newProvider() (*provider.Provider, error) {
 					} else {
 						s.GrantResources(nil)
 					}
+					s.GrantAuthorizationDetails(authdConcrete(w.pol.Details))
 					return goidc.StatusSuccess, nil
 				case "PolInProgress":
 					n, _ := s.StoredParameter("steps").(float64)
@@ -384,6 +389,9 @@ func (w *World) newProvider() (*provider.Provider, error) {
 					s.GrantScopes(w.initGr)
 					if len(w.initRes) > 0 {
 						s.GrantResources(append([]string(nil), w.initRes...))
+					}
+					if len(w.initDet) > 0 {
+						s.GrantAuthorizationDetails(authdConcrete(w.initDet))
 					}
 					return nil
 				},
@@ -477,6 +485,8 @@ func (w *World) newProvider() (*provider.Provider, error) {
 			opts = append(opts, provider.WithResourceIndicators(o.S, append([]string(nil), o.L...)...))
 		case "WithResourceIndicatorsRequired":
 			opts = append(opts, provider.WithResourceIndicatorsRequired(o.S, append([]string(nil), o.L...)...))
+		case "WithAuthorizationDetails":
+			opts = append(opts, provider.WithAuthorizationDetails(authdCompareFunc(o.Cmp), o.S, append([]string(nil), o.L...)...))
 		case "WithIssuerResponseParameter":
 			opts = append(opts, provider.WithIssuerResponseParameter())
 		case "WithPathPrefix":
@@ -575,6 +585,9 @@ func (t rt) RoundTrip(r *http.Request) (*http.Response, error) {
 		}
 		if _, ok := m["error"].(string); ok {
 			n.Err = true
+		}
+		if l := authdAbstract(m["authorization_details"]); len(l) > 0 {
+			n.DetailsCoq = cList(l, Detail.coq)
 		}
 		w.notifs = append(w.notifs, n)
 		return &http.Response{StatusCode: 204, Body: io.NopCloser(strings.NewReader("")), Header: http.Header{}}, nil
